@@ -666,7 +666,9 @@ func (c *HAConfig) NormalForm(opt *NFOptions) NF {
 				if cookie != "" {
 					line += " cookie " + cookie
 				}
-				if sv.ID != "" {
+				if sv.ID != "" && !(opt != nil && opt.RuntimeView) {
+					// a server id cannot be changed at run time and is not part of
+					// what C02 lists; it is compared on disk (C01) only
 					line += " id " + sv.ID
 				}
 				line += " " + c.normTokens(s, sv.Rest, pathKeys, authName, opt)
